@@ -190,7 +190,7 @@ class SDModel(ObjModel):
                 if val.ty != TConfig:
                     raise OutOfSubset("self.config = <not a configuration record>")
                 # every contract of the diagram is stated for debug == False (debug printing is not extracted)
-                eng.oblige(st, "config.debug_is_off", z3.Not(cfg_debug(val.t)), 0, kind="pre")
+                eng.oblige(st, "config.debug_is_off", z3.Not(cfg_debug(val.t)), 0, kind="model")
                 for k in CONFIG_KEYS:
                     _setfld(st, v, "cfg_" + k, vint(cfg_get[k](val.t)))
                 return
@@ -270,7 +270,7 @@ class SDModel(ObjModel):
                 n = LS.len(old)
                 a = z3.Int(fresh_name("a"))
                 eng.oblige(st, "all_motifs.only_appended", z3.And(LS.len(val.t) == n + 1, z3.ForAll(
-                    [a], z3.Implies(z3.And(0 <= a, a < n), LS.at(val.t)[a] == LS.at(old)[a]))), 0, kind="frame")
+                    [a], z3.Implies(z3.And(0 <= a, a < n), LS.at(val.t)[a] == LS.at(old)[a]))), 0, kind="model")
                 _setfld(st, sd, "motifs", Val(arr.ty, z3.Store(arr.t, p, z3.Store(arr.t[p], c, val.t))))
                 sig = _fld(st, sd, "succsig")
                 sp = _fld(st, sd, "space").t
